@@ -124,12 +124,12 @@ static int alphabet(struct elem *out, size_t size) {
     out[n++] = (struct elem){1, 2, 3};
     return n;
 }
-static char names[2048][40];
+static char names[4096][40];
 static struct {
     size_t size;
     int len;
     struct elem p[MAXP];
-} progs[2048];
+} progs[4096];
 static int nprogs;
 static int cur_prog;
 static void run_cur(void) {
@@ -152,7 +152,7 @@ static void add_prog(size_t size, const int *sym, int len) {
 }
 
 /* each program is its own scenario; scenario functions need distinct entry points -> trampoline table */
-static struct vsx_scenario scs[2048];
+static struct vsx_scenario scs[4096];
 static void (*const tramp_none)(void) = NULL;
 static void run_indexed(void);
 static int run_index_for_child;
@@ -165,10 +165,19 @@ int main(int argc, char **argv) {
     v_init(argc, argv);
     aws_common_library_init(aws_default_allocator());
     (void)tramp_none;
-    if (v_thorough()) {
+    /* programs: every sequence over the alphabet up to the stated length; each program is explored at its bound.
+     * quick   : ring 6, alphabet {2,3,S,U(1,S)}, all programs of length <= 4 (a wrap needs three grants, and the state
+     *           "wrapped, two buffers outstanding, request larger than the tail gap" needs a fourth - added after a
+     *           seeded interleaving bug in the wrapped branch that the length-3 programs could not reach);
+     *           ring 4, full alphabet, length <= 3.
+     * thorough: rings 4 and 6, full alphabet, length <= 4. */
+    {
+        static const int sub4[4] = {1, 2, 3, 4}; /* 2,3,S,U */
+        int maxlen_full = v_thorough() ? 4 : 3;
         size_t sizes[2] = {4, 6};
-        for (int s = 0; s < 2; ++s)
-            for (int len = 1; len <= 3; ++len) {
+        for (int s = 0; s < 2; ++s) {
+            if (!v_thorough() && sizes[s] == 6) continue;
+            for (int len = 1; len <= maxlen_full; ++len) {
                 int total = 1;
                 for (int i = 0; i < len; ++i) total *= 6;
                 for (int x = 0; x < total; ++x) {
@@ -180,18 +189,20 @@ int main(int argc, char **argv) {
                     add_prog(sizes[s], sym, len);
                 }
             }
-        /* a few length-4 programs that wrap twice */
-        int w4[][4] = {{2, 2, 2, 2}, {1, 2, 1, 2}, {2, 0, 2, 0}, {4, 1, 4, 1}, {5, 5, 5, 5}, {2, 1, 0, 3}};
-        for (int i = 0; i < 6; ++i) {
-            add_prog(4, w4[i], 4);
-            add_prog(6, w4[i], 4);
         }
-    } else {
-        int q[][3] = {{1, 1, 1}, {2, 2, 2}, {2, 0, 2}, {0, 2, 2}, {4, 1, 1}, {1, 4, 0}, {5, 5, 5}, {3, 0, 0}, {1, 5, 2}, {2, 1, 4}, {0, 3, 0}, {5, 1, 1}};
-        for (int i = 0; i < 12; ++i) {
-            add_prog(4, q[i], 3);
-            if (i % 2 == 0) add_prog(6, q[i], 3);
-        }
+        if (!v_thorough())
+            for (int len = 1; len <= 4; ++len) {
+                int total = 1;
+                for (int i = 0; i < len; ++i) total *= 4;
+                for (int x = 0; x < total; ++x) {
+                    int sym[MAXP], y = x;
+                    for (int i = 0; i < len; ++i) {
+                        sym[i] = sub4[y % 4];
+                        y /= 4;
+                    }
+                    add_prog(6, sym, len);
+                }
+            }
     }
     int rc = 0;
     /* vsx_main takes an array of scenarios; all share run_indexed and select the program through a global set before fork */
@@ -199,7 +210,7 @@ int main(int argc, char **argv) {
         scs[i].name = names[i];
         scs[i].run = run_indexed;
         scs[i].bound_quick = 2;
-        scs[i].bound_thorough = 3;
+        scs[i].bound_thorough = progs[i].len >= 4 ? 2 : 3;
         scs[i].horizon = 3000;
     }
     for (int i = 0; i < nprogs; ++i) {
